@@ -9,7 +9,7 @@ def impl_model_checks(ctx):
     tier = "quick" if ctx.quick() else "thorough"
     for cfg in ("DownstreamImpl_%s.cfg" % tier, "DownstreamImpl_%s_notry.cfg" % tier):
         ctx.add_tlc(vlib.run_tlc(ctx, "lifecycle", "DownstreamImpl", cfg, timeout=1500))
-    for d in ("NoDeadlineCheck", "SilentExitInUpFilter", "StaleFlagAfterRetry", "DropRetryStateWithoutRelease"):
+    for d in ("NoDeadlineCheck", "SilentExitInUpFilter", "StaleFlagAfterRetry", "DropRetryStateWithoutRelease", "StaleWakeEndsRequest"):
         if vlib.run_tlc(ctx, "lifecycle", "DownstreamImpl", "DownstreamImpl_defect_%s.cfg" % d, expect_ok=False)["ok"]:
             raise vlib.Inconclusive("DownstreamImpl does not reject defect " + d)
     if vlib.run_tlc(ctx, "lifecycle", "DownstreamImpl", "DownstreamImpl_loop.cfg", expect_ok=False)["ok"]:
